@@ -475,8 +475,9 @@ def ray_builders(model, inst, X):
                 lambda I, e=e: inst(I, 'NuclearNorm', mat(), 1, e), pt,
                 'ray')
     # ---- derived functionals (calculus rules on concrete functionals) ----
-    def pair(I, f, factory, sigmas=None):
+    def pair(I, f, factory, sigmas=None, sigma_elem=None):
         return Rec('proxpair', f=f, proximal=factory, sigmas=sigmas,
+                   sigma_elem=sigma_elem,
                    domain=I.getattr_value(f, 'domain'))
 
     def fn(I, name):
@@ -545,6 +546,69 @@ def ray_builders(model, inst, X):
                     fn(I, 'proximal_l2_squared'), [sp()],
                     {'lam': lam, 'g': point(sp(), g)})),
             [S('e0'), -S('e1'), 2 * S('e2'), Rat.const(0)], 'ray')
+    # ---- one step per point (sigma an element of the space), with and
+    # without the data term g, for the factories that document it ----------
+    for w, t in ((None, 'unweighted'), (Rat.const(4), 'weight 4')):
+        def sp(w=w, n=4):
+            return NSpace((n,), 'float64', w)
+        lam = Rat.const(3) / 2
+        g = [sig, -sig, 2 * sig, Rat.const(0)]
+        steps = [sig, 2 * sig, sig / 2, 3 * sig]
+        for gt, gv in (('g', g), ('no g', None)):
+            def kw(sp=sp, gv=gv):
+                return {'lam': lam} if gv is None else {
+                    'lam': lam, 'g': point(sp(), gv)}
+
+            def base(I, cls, sp=sp, gv=gv):
+                f0 = inst(I, cls, sp())
+                if gv is not None:
+                    f0 = I.call(I.getattr_value(f0, 'translated'),
+                                [point(sp(), gv)], {})
+                return I.binop(ast.Mult, lam, f0)
+
+            def lin(I, sp=sp, gv=gv):
+                return inst(I, 'QuadraticForm', vector=point(sp(), gv))
+            B['proximal_l2_squared(lam, %s)[%s, step per point]' % (gt, t)] \
+                = (lambda I, sp=sp, kw=kw, base=base: pair(
+                    I, base(I, 'L2NormSquared'), I.call(
+                        fn(I, 'proximal_l2_squared'), [sp()], kw()),
+                    sigma_elem=steps),
+                   [S('e0'), -S('e1'), 2 * S('e2'), Rat.const(0)], 'ray')
+            B['proximal_l1(lam, %s)[%s, step per point]' % (gt, t)] = (
+                lambda I, sp=sp, kw=kw, base=base: pair(
+                    I, base(I, 'L1Norm'), I.call(
+                        fn(I, 'proximal_l1'), [sp()], kw()),
+                    sigma_elem=steps),
+                [4 * sig, -sig / 2, 2 * sig, -9 * sig], 'ray')
+            # conjugates: (lam ||. - g||^2)* = ||.||^2 / (4 lam) + <., g>,
+            # (lam ||. - g||_1)* = indicator(|y_i| <= lam) + <., g>
+            def conj2(I, sp=sp, gv=gv, lin=lin):
+                f0 = I.binop(ast.Mult, 1 / (4 * lam),
+                             inst(I, 'L2NormSquared', sp()))
+                return f0 if gv is None else I.binop(ast.Add, f0, lin(I))
+
+            def conj1(I, sp=sp, gv=gv, lin=lin):
+                f0 = inst(I, 'IndicatorBox', sp(), -lam, lam)
+                return f0 if gv is None else I.binop(ast.Add, f0, lin(I))
+            B['proximal_convex_conj_l2_squared(lam, %s)[%s, step per '
+              'point]' % (gt, t)] = (
+                lambda I, sp=sp, kw=kw, conj2=conj2: pair(
+                    I, conj2(I), I.call(
+                        fn(I, 'proximal_convex_conj_l2_squared'), [sp()],
+                        kw()), sigma_elem=steps),
+                [S('e0'), -S('e1'), 2 * S('e2'), Rat.const(0)], 'ray')
+            if gv is not None:
+                continue      # a threshold sigma^2 vs lam is not decidable
+            B['proximal_convex_conj_l1(lam, %s)[%s, step per point]'
+              % (gt, t)] = (
+                lambda I, sp=sp, kw=kw, conj1=conj1: pair(
+                    I, conj1(I), I.call(
+                        fn(I, 'proximal_convex_conj_l1'), [sp()], kw()),
+                    sigma_elem=steps),
+                ([sig * sig + 4, -2 * sig * sig - Rat.const(1) / 2,
+                  sig * sig - 3, Rat.const(1)] if gv is not None else
+                 [Rat.const(4), Rat.const(-1) / 2, Rat.const(-3),
+                  Rat.const(1)]), 'ray')
     # separable sum on a product space, scalar step and one step per part
     def two():
         return NSpace((2,), 'float64', Rat.const(2))
@@ -755,6 +819,10 @@ def run_directional(model, build, entries, sigma=None, wit=None,
             sigs = []
             for part, sg_ in zip(dom.parts, sigarg):
                 sigs += [sg_] * len(entry_weights(part))
+        elif f.attrs.get('sigma_elem') is not None:
+            # one step per point: sigma is an element of the space
+            sigs = list(f.attrs['sigma_elem'])
+            sigarg = mk_point(dom, sigs)
         f = f.attrs['f']
     prox = I.call(factory, [sigarg], {})
     p = I.call(prox, [mk_point(dom, entries)], {})
